@@ -158,3 +158,110 @@ Definition run_pqueue_ops (inp : list Z) : list Z :=
   | Some ops => let '(s, obs) := q_run {| q_tok := Idle; q_q := [] |} ops in flat_map out_obs obs ++ [-9] ++ out_msgs (q_q s)
   | None => bad_input
   end.
+
+(* ---- components of C03: checked entry points ---- *)
+Require Import Mido.Model.Checks.
+
+Definition in_atom (l : list Z) : option (atom * list Z) :=
+  match l with
+  | 0 :: z :: r => Some (AInt z, r)
+  | 1 :: b :: r => Some (ABool (negb (b =? 0)), r)
+  | 2 :: t :: r => Some (AFloat t, r)
+  | 3 :: r => match in_list r with Some (s, r') => Some (AStr s, r') | None => None end
+  | 4 :: r => Some (ANone, r)
+  | 5 :: r => Some (AOther, r)
+  | _ => None
+  end.
+Fixpoint in_atoms (n : nat) (l : list Z) : option (list atom * list Z) :=
+  match n with
+  | O => Some ([], l)
+  | S k => match in_atom l with
+           | Some (a, r) => match in_atoms k r with Some (as_, r') => Some (a :: as_, r') | None => None end
+           | None => None
+           end
+  end.
+Definition in_pyval (l : list Z) : option (pyval * list Z) :=
+  match l with
+  | 0 :: r => match in_atom r with Some (a, r') => Some (PA a, r') | None => None end
+  | 1 :: n :: r => if n <? 0 then None else match in_atoms (Z.to_nat n) r with Some (as_, r') => Some (PSeq as_, r') | None => None end
+  | 2 :: r => match in_list r with Some (bs, r') => Some (PBytes bs, r') | None => None end
+  | _ => None
+  end.
+Definition in_attr (z : Z) : attr :=
+  if z =? 0 then AChannel else if z =? 1 then ANote else if z =? 2 then AVelocity else if z =? 3 then AValue
+  else if z =? 4 then AControl else if z =? 5 then AProgram else if z =? 6 then APitch else if z =? 7 then AData
+  else if z =? 8 then AFrameType else if z =? 9 then AFrameValue else if z =? 10 then APos else if z =? 11 then ASong
+  else if z =? 12 then ATime else if z =? 13 then AType else AUnknown z.
+Fixpoint in_kw_n (n : nat) (l : list Z) : option (list (attr * pyval) * list Z) :=
+  match n with
+  | O => Some ([], l)
+  | S k => match l with
+           | a :: r => match in_pyval r with
+                       | Some (v, r') => match in_kw_n k r' with Some (kw, r'') => Some ((in_attr a, v) :: kw, r'') | None => None end
+                       | None => None
+                       end
+           | [] => None
+           end
+  end.
+Definition in_kw (l : list Z) : option (list (attr * pyval) * list Z) :=
+  match l with n :: r => if n <? 0 then None else in_kw_n (Z.to_nat n) r | [] => None end.
+Definition in_kind (z : Z) : option kind := nth_error all_kinds (Z.to_nat z).
+
+(* ValueError / TypeError / AttributeError are one outcome ("rejected"): the property allows any of them *)
+Definition out_exn_tol (e : exn) : list Z :=
+  match e with ValueError | TypeError | AttributeError => [-1; 1] | _ => [-1; exn_code e] end.
+Definition out_time (t : pyval) : list Z :=
+  match t with
+  | PA (AInt z) => [0; z] | PA (ABool b) => [0; if b then 1 else 0] | PA (AFloat tok) => [2; tok]
+  | _ => [9]
+  end.
+Definition out_obj (o : mobj) : list Z := out_msg (fst o) ++ out_time (snd o).
+
+Definition run_ctor (inp : list Z) : list Z :=
+  match inp with
+  | k :: r => match in_kind k, in_kw r with
+              | Some kd, Some (kw, []) => match ctor kd kw with Ok o => 0 :: out_obj o | Raise e => out_exn_tol e end
+              | _, _ => bad_input
+              end
+  | [] => bad_input
+  end.
+
+Definition in_mop (l : list Z) : option (mop * list Z) :=
+  match l with
+  | 0 :: a :: r => match in_pyval r with Some (v, r') => Some (OSet (in_attr a) v, r') | None => None end
+  | 1 :: a :: r => Some (ODel (in_attr a), r)
+  | 2 :: r => match in_kw r with Some (kw, r') => Some (OCopy kw, r') | None => None end
+  | 3 :: r => match in_pyval r with Some (v, r') => Some (OIadd v, r') | None => None end
+  | _ => None
+  end.
+Fixpoint run_mops (fuel : nat) (o : mobj) (l : list Z) : list Z :=
+  match fuel with
+  | O => []
+  | S f =>
+    match l with
+    | [] => []
+    | _ => match in_mop l with
+           | Some (op, r) =>
+               let '(o', res) := apply_op o op in
+               (match res with
+                | Ok None => [0]
+                | Ok (Some c) => 1 :: out_obj c
+                | Raise e => out_exn_tol e
+                end) ++ [-8] ++ out_obj o' ++ [-9] ++ run_mops f o' r
+           | None => bad_input
+           end
+    end
+  end.
+(* [kind; kw of the constructor; ops...]: build the object, then apply the history *)
+Definition run_history (inp : list Z) : list Z :=
+  match inp with
+  | k :: r => match in_kind k, in_kw r with
+              | Some kd, Some (kw, ops) =>
+                  match ctor kd kw with
+                  | Ok o => 0 :: out_obj o ++ [-9] ++ run_mops (length ops) o ops
+                  | Raise e => out_exn_tol e
+                  end
+              | _, _ => bad_input
+              end
+  | [] => bad_input
+  end.
